@@ -49,10 +49,10 @@ func Main(args []string) int {
 	rep := explore.NewReporter("C16", "model_checking", flags, out)
 
 	// ---- bounds per tier
-	fullLen, coreLen, progLen, bfsDepth := 3, 4, 3, 0
-	budget := 75 * time.Second
+	fullLen, coreLen, core5Len, progLen, bfsDepth := 3, 4, 0, 3, 0
+	budget := 80 * time.Second
 	if flags.Tier == "thorough" {
-		fullLen, coreLen, progLen, bfsDepth = 4, 5, 4, 8
+		fullLen, coreLen, core5Len, progLen, bfsDepth = 3, 4, 5, 4, 8
 		budget = 17 * time.Minute
 	}
 	if flags.Budget > 0 {
@@ -62,6 +62,9 @@ func Main(args []string) int {
 		coreLen = maxIface
 		if fullLen > coreLen {
 			fullLen = coreLen
+		}
+		if core5Len > 0 && core5Len <= coreLen {
+			core5Len = 0
 		}
 	}
 	if maxProg > 0 {
@@ -117,6 +120,13 @@ func Main(args []string) int {
 		}
 		if ie.stats.completedCoreLen == 0 {
 			ie.stats.completedCoreLen = fullLen
+		}
+		for l := coreLen + 1; ifaceExhaustive && l <= core5Len; l++ {
+			if !ie.enumerate("core5", l, l-1) {
+				ifaceExhaustive = false
+				break
+			}
+			ie.stats.completedCore5Len = l
 		}
 	} else {
 		ifaceExhaustive = false
@@ -264,8 +274,8 @@ func Main(args []string) int {
 	rep.Assume("go-ethereum v1.10.8 core/state.StateDB over rawdb.NewMemoryDatabase() is the reference; the EVM interpreter, the chain config (vm.EthereumConfig), the fee/refund logic (vm.StateTransition.TransitionDb, refund quotient 3) are the repository's own on both sides, only the StateDB differs")
 	rep.Assume("adapter wired as in app/context.go over one storage.State per block (WithGas, unlimited gas calculator) with a tx session per transaction as in app/controller.go txDeliverer; native fee handling after the transaction (action.ContractFeeHandling) is not part of this check (C17)")
 	rep.Assume("SubBalance below zero and SubRefund below zero are never generated (the EVM checks CanTransfer first; go-ethereum itself panics on a negative refund)")
-	rep.Assume("ForEachStorage is compared only for keys that exist in the last committed block: storage.State.IterateRange cannot see keys that live only in the block cache (storage/state.go IterateRange 'todo'), go-ethereum iterates the trie")
-	rep.Assume("reference Finalise is followed by IntermediateRoot(true) so that go-ethereum's ForEachStorage sees finalised slots; this has no effect on any other getter")
+	rep.Assume("ForEachStorage (used by neither the EVM nor the app) is compared only right after a block commit: storage.State.IterateRange cannot see keys that live only in the block cache (storage/state.go IterateRange 'todo'), go-ethereum iterates the trie")
+	rep.Assume("CreateAccount(X) is always followed by SetNonce(X,1) and only generated where X has no nonce and no code, exactly as go-ethereum's EVM calls it (core/vm/evm.go create): go-ethereum's own state keeps a re-created but otherwise untouched object alive in memory only, an artefact the EVM cannot expose")
 	rep.Assume("sequences on which the back-ends already disagree are not extended; longer sequences through such a prefix are unexplored until the divergence is repaired")
 	return rep.Finish()
 }
